@@ -105,7 +105,7 @@ def _gen_of(r):
                             [_elem_value(r, elem) for _ in range(cnt)]])
                 mlen += cnt - (b - a)
             elif m == 'sort':
-                ops.append(['sort', r.random() < 0.3])
+                ops.append(['sort', r.random() < 0.4, r.choice(['full', 'coarse', 'coarse', 'const'])])
             elif m == 'nested_mut':
                 ops.append(['nested_mut', r.randrange(8), r.choice([0, 1, -1, 70000])])
             elif m == 'clone':
@@ -460,9 +460,11 @@ class OfRun(object):
                 elif k == 'sort':
                     if m is None or HOLE in mlist:
                         return 'skip'
-                    o.sort(key=_sort_key, reverse=op[1])
+                    keyf = _SORT_KEYS[op[2] if len(op) > 2 else 'full']
+                    o.sort(key=keyf, reverse=op[1])
                     objs = [self.elem_obj(v) for v in mlist]
-                    order = sorted(range(n), key=lambda i_: _sort_key(objs[i_]), reverse=op[1])
+                    # list.sort is stable, also with reverse=True (ties keep their original order)
+                    order = sorted(range(n), key=lambda i_: keyf(objs[i_]), reverse=op[1])
                     self.m = [mlist[i_] for i_ in order]
                 elif k == 'reverse':
                     if m is None:
@@ -609,6 +611,15 @@ class OfRun(object):
 def _sort_key(x):
     a = U.absval(x)
     return repr(a)
+
+
+def _sort_key_coarse(x):
+    """A key under which distinct members tie (three classes): makes the stability of sort visible."""
+    import zlib
+    return zlib.crc32(repr(U.absval(x)).encode()) % 3
+
+
+_SORT_KEYS = {'full': _sort_key, 'coarse': _sort_key_coarse, 'const': lambda x: 0}
 
 
 def _default_pv(d):
